@@ -233,6 +233,26 @@ where
             // `raw_identifier_buffer`.
             *unsafe { raw_identifier_buffer.get_unchecked_mut(component_index / 8) } ^=
                 1 << (component_index % 8);
+            // Find where the removed component is within the packed row: it is preceded by the
+            // components identified by the bits below its own.
+            let mut preceding_identifier_buffer = raw_identifier_buffer.clone();
+            for (byte_index, byte) in preceding_identifier_buffer.iter_mut().enumerate() {
+                if byte_index > component_index / 8 {
+                    *byte = 0;
+                } else if byte_index == component_index / 8 {
+                    *byte &= (1 << (component_index % 8)) - 1;
+                }
+            }
+            let removed_component_offset =
+                // SAFETY: `preceding_identifier_buffer` was obtained from a valid identifier, so
+                // it is of the proper length (which is `(R::LEN + 7) / 8`), and only bits were
+                // unset in it. The registry on which `size_of_components_for_identifier()` is
+                // called is the registry the identifier is generic over.
+                unsafe {
+                    Registry::size_of_components_for_identifier(
+                        archetype::Identifier::<Registry>::new(preceding_identifier_buffer).iter(),
+                    )
+                };
             let identifier_buffer =
                 // SAFETY: Since `raw_identifier_buffer` was obtained from a valid identifier, it
                 // is of the proper length (which is `(R::LEN + 7) / 8`).
@@ -272,6 +292,22 @@ where
                     .modify_location_unchecked(entity_identifier, location);
             }
             self.location = location;
+
+            // The removed component is dropped last. Its destructor may panic, and by now the
+            // entity is completely stored at its new location.
+            drop(
+                // SAFETY: `current_component_bytes` holds the packed, properly initialized
+                // components of the entity's old row, with the removed component located
+                // `removed_component_offset` bytes in. The value was skipped when the row was
+                // pushed to its new archetype, and it is not read again.
+                unsafe {
+                    current_component_bytes
+                        .as_ptr()
+                        .add(removed_component_offset)
+                        .cast::<Component>()
+                        .read_unaligned()
+                },
+            );
         }
     }
 
